@@ -35,6 +35,8 @@ KEYS = {
     'a1bNR': ([(0, 'NR')], 'a1 == bNR'),
     'b1NR': ([('NR', 0)], 'b1 == NR'),
     'a1b1+NR': ([(0, 0), ('NR', 'NR')], 'a1 == b1 and NR == bNR'),
+    'NR+a1b1': ([('NR', 'NR'), (0, 0)], 'aNR == b.NR and b1 == a1'),
+    'a1bNR+a2b1': ([(0, 'NR'), (1, 0)], 'a1 == bNR and a2 == b1'),
 }
 A1B2 = [fa(1), fb(2)]
 B2N = ('b2 if b2 is not None else -1', lambda e: e.b(2) if e.b(2) is not None else -1)
@@ -95,7 +97,7 @@ def _build():
                 kw = dict(krange=3)
             else:
                 kw = dict(krange=2)
-            quick = (key, down) in (('b1a1', 'a1b2'), ('two', 'star'), ('NRbNR', 'a1b2'), ('aNRb1', 'update'), ('a1=b1', 'update'), ('three', 'a1b2'), ('a1bNR', 'star'), ('twoX', 'a1b2'), ('a.NRb.NR', 'star'))
+            quick = (key, down) in (('b1a1', 'a1b2'), ('two', 'star'), ('a1b1+NR', 'a1b2'), ('a1b1+NR', 'star'), ('a1bNR+a2b1', 'a1b2'), ('NR+a1b1', 'update'), ('NRbNR', 'a1b2'), ('aNRb1', 'update'), ('a1=b1', 'update'), ('three', 'a1b2'), ('a1bNR', 'star'), ('twoX', 'a1b2'), ('a.NRb.NR', 'star'))
             _add('%s[%s|%s]' % (kind, key, down), kind, key, down, a, b, quick=quick, **kw)
     # ragged B (short record must raise), ragged A (missing key field), empty tables, duplicate-heavy 3x3
     _add('inner[a2b1|raggedA]', 'inner', 'a2b1', 'a1b2', ['ii', 'i'], ['ii', 'ii'], quick=True)
